@@ -6,7 +6,63 @@ import runlib
 import faultgen
 import c12
 
-THEOREMS = ["Gen.linkage_spec", "Gen.callconv_spec", "Gen.private_fast"]
+THEOREMS = ["Gen.linkage_spec", "Gen.callconv_spec", "Gen.private_fast",
+            "Gen.Addr.variable_access_well_typed", "Gen.Addr.parameter_access_well_typed", "Gen.Addr.steps_are_the_typers",
+            "Gen.Addr.stored_path", "Gen.Addr.peel_run", "Gen.Addr.runT_snd"]
+
+
+def address_correspondence(rep, rng, thorough, dist):
+    """`Gen.Addr.runT` against the instructions the real `generate_storage_address` emits, on single-access programs"""
+    import addrgen
+    n = 8000 if thorough else 500
+    cases = [addrgen.program(rng.fork("addr%d" % i)) for i in range(n)]
+    reqs = ["alpha\tverify+mods\tm.pn\t%s" % esc(src) for src, _, _ in cases]
+    got = run_harness(reqs)
+    model = run_model([mreq for _, mreq, _ in cases])
+    agreeing = accepted = 0
+    for (src, mreq, (kind, read, depth)), rq, a, mo in zip(cases, reqs, got, model):
+        hh, hd = kv(a)
+        tag = "address:%s:%s:%s" % (kind, "read" if read else "write", hh[:8])
+        dist[tag] += 1
+        dist["address-depth:%d" % min(depth, 8)] += 1
+        if hh != "ok":
+            if hh.startswith("internal") or hh.startswith("panic"):
+                continue    # C02's business
+            # every generated access is legal Penne: the typer accepts it (Types.Ty.access_path_accepted)
+            rep.violation("addr-rejected:" + rq[:300], {"why": ("the compiler crashes on a legal access path (LLVM aborts on an ill-typed instruction): " if hh.startswith("crash")
+                                                                  else "a legal access path is rejected: ") + a[:300], "source": src,
+                                                          "model": mo, "harness_request": rq})
+            continue
+        accepted += 1
+        problems = []
+        if hd.get("verify") != "ok":
+            problems.append("LLVM tools reject the IR: " + hd.get("verify", "?"))
+        ir = bytes.fromhex(hd["mods"].split(";")[0][2:]).decode("utf-8", "replace") if hd.get("mods", "").startswith("h:") else ""
+        kept, final = addrgen.ir_trace(ir)
+        mm = re.match(r"^(.*?) ?=> (.*) leaf=(.*)$", mo)
+        if mo.startswith("illtyped") or mo == "noelab" or not mm:
+            problems.append("the model has no well-typed address for this access: " + mo)
+        elif kept is None:
+            problems.append("cannot read the instructions of probe back: " + final)
+        else:
+            want = [x for x in mm.group(1).split("; ") if x]
+            real = [t for _, t in kept]
+            if read:
+                want = want + ["load " + mm.group(2)]
+            elif final[1] != mm.group(2):
+                problems.append("the store goes through a %s, the model's address is a %s" % (final[1], mm.group(2)))
+            if mm.group(2) != mm.group(3) + "*":
+                problems.append("the model's address %s is not a pointer to the lowered leaf %s" % (mm.group(2), mm.group(3)))
+            if want != real:
+                problems.append("instructions differ: model [%s], implementation [%s]" % ("; ".join(want), "; ".join(real)))
+        if problems:
+            rep.violation("addr:" + rq[:300], {"why": problems[:4], "source": src, "model_request": mreq, "model": mo,
+                                               "implementation_instructions": [t for _, t in kept] if kept else None,
+                                               "harness_request": rq,
+                                               "note": "model-vs-implementation disagreement on generate_storage_address (or invalid IR)"})
+        else:
+            agreeing += 1
+    return n, accepted, agreeing
 
 
 def source_functions(src):
@@ -184,9 +240,15 @@ def main():
                                              "note": "implementation-vs-oracle failure (LLVM's assembler/verifier or the symbol table), not a model disagreement"})
         else:
             agreeing += 1
+    addr_n, addr_accepted, addr_agreeing = address_correspondence(rep, rng.fork("addr"), thorough, dist)
     report_broken_proof(rep)
     rep.coverage.update({
-        "evaluations": len(jobs), "programs": accepted, "distinct_nontrivial": len(set(reqs)),
+        "address_computation": {"programs": addr_n, "accepted": addr_accepted, "instruction_sequences_agreeing": addr_agreeing,
+                                "rule": "single-access programs (a path of 1..n steps through arrays, endless arrays, slices, slice pointers, "
+                                        "structures, words, pointers and views, on a local variable or an immediate parameter, read or written): "
+                                        "the getelementptr / load / extractvalue instructions of the real IR, with their operand types and "
+                                        "constant indices, equal the ones Gen.Addr.runT records, and the address is a pointer to the lowered leaf"},
+        "evaluations": len(jobs) + addr_n, "programs": accepted, "distinct_nontrivial": len(set(reqs)),
         "rule": "generated programs (valid; without main; for the wasm target; with run-time UB and a non-terminating loop; split "
                 "over 2-4 modules in random file order; module sets whose private structures, words, helpers and constants share "
                 "names), the valid corpus (tests/samples/valid, examples) and single-fault "
